@@ -155,5 +155,45 @@ func genTables() {
 		})
 		l.f("def %s : List String := %s\n\n", it.name, leanStrList(res))
 	}
+	// casblob layout: field types of `header`, write order, read order, WriteAndClose step order
+	if f := parse("cache/disk/casblob/casblob.go"); f != nil {
+		var fields []string
+		ast.Inspect(f, func(n ast.Node) bool {
+			ts, ok := n.(*ast.TypeSpec)
+			if !ok || ts.Name.Name != "header" {
+				return true
+			}
+			if st, ok := ts.Type.(*ast.StructType); ok {
+				for _, fl := range st.Fields.List {
+					for _, nm := range fl.Names {
+						fields = append(fields, nm.Name+" "+exprStr(fl.Type))
+					}
+				}
+			}
+			return false
+		})
+		l.f("def casblob_header_fields : List String := %s\n\n", leanStrList(fields))
+		ioArgs := func(fd *ast.FuncDecl, fn string) []string {
+			var out []string
+			ast.Inspect(fd.Body, func(n ast.Node) bool {
+				c, ok := n.(*ast.CallExpr)
+				if ok && exprStr(c.Fun) == fn && len(c.Args) == 3 {
+					out = append(out, exprStr(c.Args[1])+" "+exprStr(c.Args[2]))
+				}
+				return true
+			})
+			return out
+		}
+		if fd := findFunc("cache/disk/casblob/casblob.go", "header", "write"); fd != nil {
+			l.f("def casblob_header_write : List String := %s\n\n", leanStrList(ioArgs(fd, "binary.Write")))
+		}
+		if fd := findFunc("cache/disk/casblob/casblob.go", "", "readHeader"); fd != nil {
+			l.f("def casblob_header_read : List String := %s\n\n", leanStrList(ioArgs(fd, "binary.Read")))
+		}
+		if fd := findFunc("cache/disk/casblob/casblob.go", "", "WriteAndClose"); fd != nil {
+			l.f("def casblob_write_steps : List String := %s\n\n", leanStrList(callsIn(fd.Body,
+				"h.write", "io.ReadFull", "EncodeAll", "f.Write", "f.Seek", "binary.Write", "f.Sync", "f.Close", "hasher.Sum", "io.Copy")))
+		}
+	}
 	l.write()
 }
